@@ -392,6 +392,9 @@ class Ops(object):
     def identical(self, it, a, b):
         """ `is` : exact for None/True/False/singletons and heap objects; values otherwise out of reach """
         ctx = it.ctx
+        from . import api as _api
+        if a is _api.OMITTED or b is _api.OMITTED:
+            return a is b
         for x, y in ((a, b), (b, a)):
             if y is None or isinstance(y, bool) or isinstance(y, Err):
                 if isinstance(x, Sym):
